@@ -10,13 +10,14 @@ import EmbitModel.Driver.Sign
 import EmbitModel.Driver.Addr
 import EmbitModel.Driver.Secp
 import EmbitModel.Driver.Slip39
+import EmbitModel.Driver.Heap
 /-
   Native line-protocol driver over the executable model and spec (no Mathlib reachable from here).
   One request per line `op arg…`; one answer per line: `ok …`, `none` (model rejects), or `bad-op`.
 -/
 open Embit.Driver
 
-def handlers : List (String → List String → Option String) := [handleTx, handleHash, handleSighash, handlePsbt, handleBip39, handleMiniscript, handleView, handleSigCheck, handleSign, handleAddr, handleSecp, handleSlip39]
+def handlers : List (String → List String → Option String) := [handleTx, handleHash, handleSighash, handlePsbt, handleBip39, handleMiniscript, handleView, handleSigCheck, handleSign, handleAddr, handleSecp, handleSlip39, handleHeap]
 
 def dispatch (line : String) : String :=
   match (line.splitOn " ").filter (· ≠ "") with
